@@ -1,5 +1,6 @@
 import Autog.Properties.C11
 import Autog.Lemmas.Listed
+import Autog.Lemmas.BreakProper
 /-! # C01 (continued) — the chain "for every input" through the cutting of long edges, for the LongestPath layerer
 
     `Properties/C01.lean` proves that for every non-empty edge list pre-processing, phase 1 and (with the LongestPath layerer)
@@ -139,7 +140,8 @@ theorem le_foldl_maxInt (f : Nat → Int) : ∀ (l : List Nat) (m : Int) (x : Na
     termination proof -/
 theorem breakWF_after_longestpath (g1 gl g2 : G) (hA : AdjLL g1) (hac : hasCycles g1 = .ok false)
     (hl : execLongestPath g1 = .ok gl) (hb : buildLayers gl = .ok g2) :
-    BreakWF g2 ∧ ∀ e ∈ g2.elist, (g2.layerOf (g2.edge e).dst - g2.layerOf (g2.edge e).src).toNat ≤ g2.layers.size + 2 := by
+    BreakWF g2 ∧ (∀ e ∈ g2.elist, (g2.layerOf (g2.edge e).dst - g2.layerOf (g2.edge e).src).toNat ≤ g2.layers.size + 2) ∧
+      DownNL g2 := by
   obtain ⟨hE, hL, hN, hio⟩ := execLongestPath_frame g1 gl hl
   obtain ⟨bN, bE, bL, bS⟩ := buildLayers_frame gl g2 hb
   have hedge : ∀ e, g2.edge e = g1.edge e := by intro e; simp only [G.edge, bE, hE]
@@ -165,7 +167,7 @@ theorem breakWF_after_longestpath (g1 gl g2 : G) (hA : AdjLL g1) (hac : hasCycle
       simpa [G.nodeIds] using this
     · unfold outNbrs
       exact List.mem_map.2 ⟨e, (hA.listed e he).1, rfl⟩
-  refine ⟨⟨?_, ?_, ?_⟩, ?_⟩
+  refine ⟨⟨?_, ?_, ?_⟩, ?_, ?_⟩
   · intro e he; rw [hes]; exact hA.adj.el e (hel ▸ he)
   · intro e he; rw [hedge, hns]; exact hA.adj.ends e (hA.adj.el e (hel ▸ he))
   · intro e he
@@ -181,6 +183,10 @@ theorem breakWF_after_longestpath (g1 gl g2 : G) (hA : AdjLL g1) (hac : hasCycle
       le_foldl_maxInt gl.layerOf gl.nodeIds 0 _ (by simp only [G.nodeIds, List.mem_range, hN]; exact hends.2)
     have h2 := hnonneg (g1.edge e).src (by simp only [G.nodeIds, List.mem_range, hN]; exact hends.1)
     omega
+  · intro e he hne
+    rw [hedge] at hne ⊢
+    rw [hlay, hlay]
+    exact hdown e (hel ▸ he) (fun h => hne h.symm)
 
 /-- **C01, for every input, through the cutting of long edges (LongestPath layerer)**: for every non-empty edge list, every
     option set with the LongestPath layerer, every component of more than one node and either cycle breaker, whatever phase 1
@@ -207,7 +213,7 @@ theorem C01_longestpath_upto_break_any_input (cfg : Cfg) (es : InEdges) (hne : e
   | error e => rw [hl] at hg2; cases hg2
   | ok gl =>
     rw [hl] at hg2
-    obtain ⟨hwf, hspan⟩ := breakWF_after_longestpath g1 gl g2 hA hac hl hg2
+    obtain ⟨hwf, hspan, _⟩ := breakWF_after_longestpath g1 gl g2 hA hac hl hg2
     exact breakLongEdges_total g2 hwf hspan
 
 /-- C03 for the LongestPath layerer on every input, in terms of the edge LIST: every listed edge that is not a self-loop points
@@ -238,6 +244,34 @@ theorem C03_longestpath_listed_edges_down_any_input (cfg : Cfg) (es : InEdges) (
     simpa [G.nodeIds] using this
   · unfold outNbrs
     exact List.mem_map.2 ⟨e, (hA.listed e he).1, rfl⟩
+
+/-- **C03 / the precondition "proper" of the ordering phase, for every input (LongestPath layerer)**: what `breakLongEdges` returns
+    on the state phase 2 handed over is a PROPER layering — every listed edge that is not a self-loop joins two consecutive
+    layers, pointing down — for every non-empty edge list, every option set with the LongestPath layerer, either breaker -/
+theorem C03_longestpath_proper_after_break_any_input (cfg : Cfg) (es : InEdges) (hne : es ≠ []) (hp2 : cfg.p2 = 1) :
+    ∃ cs, preProcess cfg es = .ok cs ∧ ∀ c ∈ cs, 2 ≤ c.1.nodes.size → ∀ alg g1, phase1 alg c.1 = .ok g1 →
+      ∃ g2 g3, phase2Model cfg g1 = .ok g2 ∧ breakLongEdges g2 = .ok g3 ∧ Proper g3 := by
+  obtain ⟨cs, hcs⟩ := preProcess_total cfg es hne
+  refine ⟨cs, hcs, fun c hc hn2 alg g1 h1 => ?_⟩
+  have hn : (c.1.nodes.size == 1) = false := by simp; omega
+  have hA := adjLL_phase1 alg c.1 g1 (adjLL_preProcess cfg es cs hcs c hc) h1
+  have hac := phase1_ok_acyclic alg c.1 g1 hn h1
+  have hsz : (g1.nodes.size == 1) = false := by
+    have := (statEq_phase1 alg c.1 g1 h1).1
+    simp; omega
+  obtain ⟨g2, hg2⟩ := longestPath_total_of_acyclic g1 hA.adj hac
+  have hp : phase2Model cfg g1 = .ok g2 := by
+    unfold phase2Model
+    simp only [hsz, Bool.false_eq_true, if_false, hp2, beq_self_eq_true, if_true]
+    exact hg2
+  simp only [bind, Except.bind] at hg2
+  cases hl : execLongestPath g1 with
+  | error e => rw [hl] at hg2; cases hg2
+  | ok gl =>
+    rw [hl] at hg2
+    obtain ⟨hwf, hspan, hdn⟩ := breakWF_after_longestpath g1 gl g2 hA hac hl hg2
+    obtain ⟨g3, hg3⟩ := breakLongEdges_total g2 hwf hspan
+    exact ⟨g2, g3, hp, hg3, (breakLongEdges_proper g2 g3 hwf hdn hg3).2⟩
 
 /-- the premises are satisfiable and the chain is exercised: a 3-cycle with a chord and a pendant path, LongestPath layerer -/
 example : ∃ cs, preProcess { p2 := 1 } [("a", "b"), ("b", "c"), ("c", "a"), ("a", "c"), ("c", "d"), ("d", "e"), ("a", "e")] = .ok cs :=
